@@ -265,7 +265,7 @@ def rowScale (a r : Dense K) : Dense K := ⟨a.nr, a.nc, fun i j => a.el i j * r
 /-- `M = M * diag(c)` -/
 def colScale (a c : Dense K) : Dense K := ⟨a.nr, a.nc, fun i j => a.el i j * c.el j 0⟩
 def transpose (a : Dense K) : Dense K := ⟨a.nc, a.nr, fun i j => a.el j i⟩
-def mul (a b : Dense K) : Dense K := ⟨a.nr, b.nc, fun i j => sumTo a.nc fun k => a.el i k * b.el j k⟩
+def mul (a b : Dense K) : Dense K := ⟨a.nr, b.nc, fun i j => sumTo a.nc fun k => a.el i k * b.el k j⟩
 /-- scalar assignment `M = s`: `s` on the diagonal, zero elsewhere -/
 def scalarMat (nr nc : Nat) (s : K) : Dense K := ⟨nr, nc, fun i j => if i = j then s else 0⟩
 def const (nr nc : Nat) (s : K) : Dense K := ⟨nr, nc, fun _ _ => s⟩
